@@ -97,13 +97,8 @@ TABLE: dict[str, list[tuple]] = {
          "P:loop.loop_events", ("P:end_event",), [], [], ""),
     ],
     "create_sub_graph_of_loop": [
-        ("events of the copy that cannot get back into the loop lose the "
-         "mirror sets of their out-edges", "call",
-         "remove_event_sets_mirroring_removed_edges", "",
-         ("{EventEdge(*each(_G.out_edges(_N))) for..}",), [], [],
-         "events kept in the body keep predecessor sets naming events that "
-         "were pruned: merges inside the body are validated against them"),
-        ("and are removed from the copy", "call", "remove_nodes_from", "_G",
+        ("events of the copy that cannot get back into the loop are removed "
+         "from the body", "call", "remove_nodes_from", "_G",
          ("_N",), [], [], ""),
     ],
     "create_end_event_to_event_lists_mapping": [
